@@ -29,7 +29,7 @@ type TLCRun struct {
 	Seed      int64             // -seed (simulation) when != 0
 	Coverage  bool              // -coverage 1
 	ExtraArgs []string
-	Label     string // for logs
+	Label     string   // for logs
 	KnownDevs []string // when non-nil: the cfg's line "KnownDevs = {...}" is rewritten with these names
 }
 
